@@ -118,7 +118,9 @@ def T_verdict_independent_of_spelling_receipts(fix: bool, builtin: bool, load_ou
     from harness.toolworld import World, drive, install_validate_stubs
 
     prof = ["STRICT", "STANDARD", "LENIENT", "ULTRA"][profile_i]
-    ka, na, profile_i = realize(ka), realize(na), realize(profile_i)
+    from vf.ob import pick
+
+    ka, na, profile_i = pick(ka, 7), pick(na, 2, 1), pick(profile_i, 4)
 
     def call(kind, n):
         w = World()
